@@ -72,7 +72,7 @@ func c06Addr(r *sim.Rand, tok, field string, n int) AddrSpec {
 }
 
 func (p *c06) Gen(seed uint64, i int, tier string) (any, bool) {
-	n := 20000
+	n := 120000
 	if tier == "thorough" {
 		n = 1000000
 	}
